@@ -99,6 +99,7 @@ type Summary struct {
 	LastSeed   int64          `json:"last_seed"`
 	RaceBuild  bool           `json:"race_build"`
 	Seqs       []string       `json:"seqs"`
+	SeqSpace   int            `json:"seq_space"`
 }
 
 var (
@@ -710,7 +711,11 @@ func evidence(prop, tierName string, seed int64, sums []Summary, recs []Record, 
 	inter := map[uint64]bool{}
 	var samples []any
 	seqs := map[string]bool{}
+	seqSpace := 0
 	for _, s := range sums {
+		if s.SeqSpace > seqSpace {
+			seqSpace = s.SeqSpace
+		}
 		for _, q := range s.Seqs {
 			seqs[q] = true
 		}
@@ -789,12 +794,27 @@ func evidence(prop, tierName string, seed int64, sums []Summary, recs []Record, 
 		"stubs":                         "OS network stack (verif/sim/vnet), controllers and event senders (scenario emission plans), wall clock (testing/synctest), goroutine choice (seeded scheduler)",
 	}
 	if prop == "C03" {
-		// class sequences of length <= 2 per delivery path: 3 paths x (1 + 9 + 81)
+		// class sequences of length <= 2 per delivery path: 3 paths x (1 + n + n*n), n = classes the generator draws from
 		cov["class_sequences_len2_reached"] = len(seqs)
-		cov["class_sequences_len2_space"] = 3 * (1 + 9 + 81)
+		cov["class_sequences_len2_space"] = seqSpace
 	}
 	var zero []string
-	for _, probe := range []string{"kernel:tie:data-at-deadline", "kernel:read-truncated", "probe:lock-had-to-wait", "kernel:read-timeout", "kernel:udp-lost:no-socket"} {
+	// probes: rare conditions each profile is expected to reach; one at zero is a gap in the workload or fault mix
+	probesOf := map[string][]string{
+		"C01": {"kernel:read-timeout", "kernel:udp-lost:no-socket"},
+		"C02": {"kernel:read-timeout"},
+		"C03": {"kernel:tie:data-at-deadline", "kernel:read-truncated", "kernel:read-timeout", "kernel:udp-lost:no-socket"},
+		"C04": {"kernel:read-truncated", "kernel:read-timeout"},
+		"C06": {"kernel:udp-lost:no-socket"},
+		"C07": {},
+		"C08": {"probe:lock-had-to-wait", "kernel:read-truncated", "kernel:read-timeout", "kernel:udp-lost:no-socket"},
+		"C09": {"kernel:tie:data-at-deadline", "probe:lock-had-to-wait", "kernel:read-timeout", "kernel:udp-lost:no-socket"},
+		"C10": {"kernel:read-truncated", "kernel:udp-lost:no-socket", "read-fail:closed"},
+		"C11": {"kernel:tie:data-at-deadline", "kernel:read-truncated", "probe:lock-had-to-wait", "kernel:udp-lost:no-socket"},
+		"C13": {},
+		"C17": {},
+	}
+	for _, probe := range probesOf[prop] {
 		if counters[probe] == 0 {
 			zero = append(zero, probe)
 		}
@@ -802,7 +822,9 @@ func evidence(prop, tierName string, seed int64, sums []Summary, recs []Record, 
 	cov["probes_at_zero"] = zero
 	if race {
 		cov["race_detector_runs"] = raceRuns
-		cov["distinct_schedules"] = len(inter)
+	}
+	if len(inter) > 0 {
+		cov["distinct_schedules"] = len(inter) // distinct scheduler choice tapes
 	}
 	return map[string]any{
 		"property_id": prop,
